@@ -208,7 +208,8 @@ REG.contract(
 # construction, reading and writing through a view
 # --------------------------------------------------------------------------
 REG.contract(
-    "np.array", assumed=True, params=dict(x=Dyn), result=Dyn, ensures=["result == uf('np.array', x)"])
+    "np.array", assumed=True, params=dict(x=Dyn), result=Dyn, ensures=["result == uf('np.array', x)"],
+    note="for numeric sequences np.array is modelled as the sequence itself (pyvc/builtins.py b_np_array)")
 
 SLICES_DOMAIN = ("is_none(slices) or (is_valseq(slices) and all(is_none(s) or (is_slice(s) and has_bounds(as_slice(s)) "
                  "and step_none(as_slice(s))) for s in as_valseq(slices)))")
